@@ -492,6 +492,9 @@ func ruleC15(w *World, r *Report) {
 				continue
 			}
 			if k != accepted {
+				// the handlers recognise a failed datapath operation by cause == Request rejected and nothing else
+				rejected := w.ConstInt(P, iePkg, "CauseRequestRejected")
+				r.check(k == rejected, "R15.4", fn, "a failed operation is reported with the cause the handlers test for", w.Pos(ret.Pos()), "CauseRequestRejected", fmt.Sprintf("the UP4 plug-in reports a failure with cause %d: the session handlers only treat cause %d (Request rejected) as a failure, so the request is answered 'accepted' and the session is stored although its write failed", k, rejected))
 				continue
 			}
 			// the err variable (φ of the send* results) must be nil on the way
@@ -587,10 +590,12 @@ func rootedPathOfValue(v ssa.Value) string { return rootedPath(v) }
 // P4RuntimeError are filtered: OK and ALREADY_EXISTS are tolerated, anything else must end
 // in an error return at once; an error with no statuses must not fall through to success.
 func ruleC15StatusFilter(w *World, r *Report, f *ssa.Function, apply *ssa.Call) {
-	statusFilterRule(w, r, "R15.4", f, apply)
+	statusFilterRule(w, r, "R15.4", "reject", f, apply)
 }
 
-func statusFilterRule(w *World, r *Report, rule string, f *ssa.Function, apply *ssa.Call) {
+// statusFilterRule: mode "reject" — every status that means a failed write rejects the request (C15, C04);
+// mode "gone" — a DELETE of an entry that is already gone does not (C05, C04).
+func statusFilterRule(w *World, r *Report, rule, mode string, f *ssa.Function, apply *ssa.Call) {
 	fn := w.FuncName(f)
 	ev := ssa.Value(apply)
 	okCode := w.ConstInt("C15", "google.golang.org/grpc/codes", "OK")
@@ -618,66 +623,78 @@ func statusFilterRule(w *World, r *Report, rule string, f *ssa.Function, apply *
 		r.bad(rule, fn, "per-update statuses of a P4Runtime error are examined", w.Pos(apply.Pos()), "no loop over P4RuntimeError.Get() found: a failed batch write is not analysed")
 		return
 	}
-	// tolerated codes: the equality tests on GetCanonicalCode() inside the loop
-	tolerated := map[int64]bool{}
-	var badEdges [][2]*ssa.BasicBlock // edges on which the status is known to be neither tolerated code
-	for _, b := range f.Blocks {
-		if !(b == body || (hdr.Dominates(b) && reachesBlock(b, hdr))) {
-			continue
-		}
-		for _, s := range b.Succs {
-			x, op, y, ok := edgeFact(b, s)
-			if !ok {
+	// what the filter does with one status, for every combination of status code and write method: the loop
+	// body is walked with the edges that contradict the combination cut; it either goes back to the loop
+	// head (the status is tolerated) or leaves through an error return (the request is rejected)
+	notFound := w.ConstInt("C15", "google.golang.org/grpc/codes", "NotFound")
+	const p4pkg = "github.com/p4lang/p4runtime/go/p4/v1"
+	methods := []struct {
+		name string
+		k    int64
+	}{{"INSERT", w.ConstInt("C15", p4pkg, "Update_INSERT")}, {"MODIFY", w.ConstInt("C15", p4pkg, "Update_MODIFY")}, {"DELETE", w.ConstInt("C15", p4pkg, "Update_DELETE")}}
+	codes := []struct {
+		name string
+		k    int64
+	}{{"OK", okCode}, {"ALREADY_EXISTS", existsCode}, {"NOT_FOUND", notFound}, {"any other code", -1}}
+	if len(body.Instrs) == 0 {
+		r.bad(rule, fn, "the status loop has a body", w.Pos(apply.Pos()), "empty loop body")
+		return
+	}
+	n := 0
+	for _, m := range methods {
+		for _, c := range codes {
+			// the loop body is interpreted for this combination: comparisons of the status code and of the write
+			// method with constants are the atoms, everything boolean built from them is computed
+			atomV := func(v ssa.Value) (bool, bool, bool) {
+				bo, ok := v.(*ssa.BinOp)
+				if !ok || (bo.Op != token.EQL && bo.Op != token.NEQ) {
+					return false, false, false
+				}
+				x, y := bo.X, bo.Y
+				k, isK := constInt(y)
+				if !isK {
+					x, y = bo.Y, bo.X
+					k, isK = constInt(y)
+				}
+				if !isK {
+					return false, false, false
+				}
+				var truth bool
+				if call, isCall := stripConv(x).(*ssa.Call); isCall && strings.HasSuffix(calleeName(call), ".GetCanonicalCode") {
+					truth = c.k == k
+				} else if strings.HasSuffix(symOf(x).String(), "methodType") {
+					truth = m.k == k
+				} else {
+					return false, false, false
+				}
+				if bo.Op == token.NEQ {
+					truth = !truth
+				}
+				return truth, true, true
+			}
+			first := body.Instrs[0]
+			ret, decided := interpretRegion(f, body, hdr, atomV, func(b *ssa.BasicBlock) bool { return b == hdr })
+			if !decided {
+				r.bad(rule, fn, fmt.Sprintf("status %s on %s is decided by the status code and the write method", c.name, m.name), w.Pos(first.Pos()), "the filter's decision depends on something the rule cannot evaluate")
 				continue
 			}
-			if c, isCall := stripConv(x).(*ssa.Call); isCall && strings.HasSuffix(calleeName(c), ".GetCanonicalCode") {
-				k, isK := constInt(y)
-				if isK && op == token.EQL {
-					tolerated[k] = true
-				}
-				if isK && op == token.NEQ {
-					badEdges = append(badEdges, [2]*ssa.BasicBlock{b, s})
-				}
+			tolerated := ret == nil
+			rejected := ret != nil && !isNilConst(res(ret, 0))
+			accepted := ret != nil && isNilConst(res(ret, 0))
+			n++
+			desc := fmt.Sprintf("status %s on %s", c.name, m.name)
+			mustReject := c.k == -1 || (c.k == notFound && m.name != "DELETE")
+			switch {
+			case mode == "reject" && mustReject:
+				r.check(rejected && !tolerated && !accepted, rule, fn, desc+" rejects the request", w.Pos(first.Pos()), "error return without re-entering the loop", "after "+desc+" the filter goes on (or returns success): a failed write passes as accepted")
+			case mode == "reject" && c.k == okCode:
+				r.check(tolerated && !rejected, rule, fn, desc+" is not a failure", w.Pos(first.Pos()), "next status", desc+" is treated as a failure")
+			case mode == "gone" && c.k == notFound && m.name == "DELETE":
+				r.check(tolerated && !rejected, rule, fn, "a DELETE of an entry that is already gone is not a failure", w.Pos(first.Pos()), "NOT_FOUND tolerated under DELETE", "the filter treats NOT_FOUND on DELETE as a failure. All uplink (downlink) PDRs of a session share one sessions_uplink (sessions_downlink) entry — its key holds no PDR ID; on INSERT the duplicate is tolerated (ALREADY_EXISTS) — so deleting a session with two PDRs of one direction removes the shared entry with the first PDR and fails on the second: the deletion is rejected half way, the session can never be deleted, its remaining entries, counter and meter cells and tunnel-peer reference stay for ever")
 			}
 		}
 	}
-	okSet := len(tolerated) == 2 && tolerated[okCode] && tolerated[existsCode]
-	r.check(okSet, rule, fn, "only OK and ALREADY_EXISTS statuses are tolerated", w.Pos(apply.Pos()), fmt.Sprint(tolerated), fmt.Sprintf("tolerated status codes are %v", tolerated))
-	// the block reached when the status differs from every tolerated code: the last NEQ edge in the chain
-	var badBlock *ssa.BasicBlock
-	for _, e := range badEdges {
-		// the edge target that is not itself testing another code
-		isTest := false
-		if ifi := blockIf(e[1]); ifi != nil {
-			if bo, ok := ifi.Cond.(*ssa.BinOp); ok {
-				if c, isCall := stripConv(bo.X).(*ssa.Call); isCall && strings.HasSuffix(calleeName(c), ".GetCanonicalCode") {
-					isTest = true
-				}
-			}
-		}
-		if !isTest {
-			badBlock = e[1]
-		}
-	}
-	if badBlock == nil || len(badBlock.Instrs) == 0 {
-		r.bad(rule, fn, "a non-tolerated status is acted upon", w.Pos(apply.Pos()), "no branch for a status that is neither OK nor ALREADY_EXISTS: the decision is not taken per status (e.g. a flag overwritten by later statuses)")
-	} else {
-		first := badBlock.Instrs[0]
-		// from there: no way back to the loop head, no nil-error return
-		back := reach(f, first, func(i ssa.Instruction) bool {
-			if i.Block() == hdr {
-				return true
-			}
-			if ret, ok := i.(*ssa.Return); ok {
-				return isNilConst(res(ret, 0))
-			}
-			return false
-		}, nil, nil)
-		if _, isRet := first.(*ssa.Return); isRet && !isNilConst(res(first.(*ssa.Return), 0)) {
-			back = nil
-		}
-		r.check(back == nil, rule, fn, "the first failing status rejects the request", w.Pos(first.Pos()), "error return without re-entering the loop", "after a status that is neither OK nor ALREADY_EXISTS the loop continues (or success is returned): a later tolerated status lets the failed write pass as accepted")
-	}
+	r.floor(rule+" status × method combinations", n, 12)
 	// empty status list: the loop's exit edge must not lead to success when err != nil
 	exit := hdr.Succs[1]
 	if len(exit.Instrs) > 0 {
@@ -780,9 +797,23 @@ func ruleC15TunnelRelease(w *World, r *Report, P string) {
 	release := up("unsafeReleaseAllocatedGTPTunnelPeer")
 	n := 0
 	for _, g := range withClosures(f) {
+		// release sites: calls of the release function, and direct returns of an ID to the queue
+		var sites []ssa.Instruction
 		for _, c := range callsTo(g, release) {
+			sites = append(sites, c.(ssa.Instruction))
+		}
+		allInstrs(g, func(i ssa.Instruction) {
+			if st, ok := i.(*ssa.Store); ok {
+				if fa, ok := st.Addr.(*ssa.FieldAddr); ok && fieldVar(fa) != nil && fieldVar(fa).Name() == "tunnelPeerIDsPool" {
+					if c, ok := st.Val.(*ssa.Call); ok && calleeName(c) == "builtin.append" {
+						sites = append(sites, i)
+					}
+				}
+			}
+		})
+		for _, c := range sites {
 			n++
-			okGuard := onlyVia(g, c.(ssa.Instruction), func(a, b *ssa.BasicBlock) bool {
+			okGuard := onlyVia(g, c, func(a, b *ssa.BasicBlock) bool {
 				v, truth, ok := boolEdge(a, b)
 				if !ok || truth {
 					return false
